@@ -286,14 +286,14 @@ impl<'a> vstd::std_specs::convert::FromSpecImpl<DataRef<'a>> for Data {
 /// [MS-XLS] 2.4.149 LabelSst: cell (6 bytes), isst (4 bytes): index into the shared string table
 pub open spec fn labelsst_isst(r: Seq<u8>) -> int { u32_at(r, 6) }
 
-//@@ fn src/xls.rs parse_label_sst props=C02,C19 entry ret=res
+//@@ fn src/xls.rs parse_label_sst props=C02,C19,C12 entry ret=res
 //@@ sig
     ensures
         //# C02.labelsst_len_guard
         r@.len() < 10 <==> res is Err,
         //# C02.labelsst_len_err
         r@.len() < 10 ==> is_len_err(res, 10, r@.len() as int),
-        //# C02,C19.labelsst_resolved
+        //# C02,C19,C12.labelsst_resolved
         r@.len() >= 10 && labelsst_isst(r@) < strings@.len() && strings@[labelsst_isst(r@)]@.len() > 0 ==>
             res is Ok && res->Ok_0 is Some && res->Ok_0->Some_0.p() == cell_pos(r@)
             && res->Ok_0->Some_0.v() == Data::String(strings@[labelsst_isst(r@)]),
@@ -610,7 +610,7 @@ proof fn lemma_frame_split(s: Seq<u8>)
             len0 - len <= base.len(),
             rest(*self) == base.skip(len0 - len),
         decreases len, conts(*self).len(),
-//@@ before /if self\.data\.is_empty/
+//@@ before /if [^{;]*continue_record\(\)/
             let ghost s1 = *self;
 //@@ before /let l = /
             let ghost s2 = *self;
